@@ -1380,3 +1380,164 @@ Proof.
   - apply (Hcw6 sw eq_refl).
   - rewrite Hv5, Hv6. reflexivity.
 Qed.
+
+Theorem Eq_refines : forall h vl vw ls ws n,
+  int_slice h vl ls -> int_slice h vw ws -> disjoint_vals vl vw ->
+  length ls = length ws -> ws <> [] ->
+  exists fuel v h',
+    run go_funs fuel "Eq" [vl; vw; VInt n] h = OReturn v h' /\
+    gopbs_of_rval (readback h' v) = Some (eq_ ls ws n) /\
+    (v = VNil \/ exists l, v = VList l) /\
+    length h' = S (S (length h)) /\
+    (forall a, (a < length h)%nat ->
+               (forall s, vl = VSl s -> a <> s_arr s) -> (forall s, vw = VSl s -> a <> s_arr s) ->
+               arr_of h' a = arr_of h a) /\
+    (* what the caller's two slices hold afterwards *)
+    (forall s, vl = VSl s ->
+       sl_read h' s = g_lits (lt_eq ls ws n) ++
+                      repeat (last (map Z.opp ls) 0) (length ls - length (g_lits (lt_eq ls ws n)))) /\
+    (forall s, vw = VSl s -> exists wl, g_ws (lt_eq ls ws n) = Some wl /\
+       sl_read h' s = wl ++ repeat (last ws 0) (length ws - length wl)).
+Proof.
+  intros h vl vw ls ws n Hl Hw Hdis Hlen Hws.
+  destruct Hw as [(-> & ->)|(sw & -> & Hokw & Hrdw)]; [congruence|].
+  destruct Hl as [(-> & ->)|(sl & -> & Hokl & Hrdl)]; [destruct ws; [congruence|discriminate]|].
+  cbn [disjoint_vals] in Hdis.
+  destruct (Eq_total h sl sw ls ws n) as (v & h' & Hrun & Hg & Hh' & Hfr & Hcl & Hcw & Hv); try assumption.
+  { right. exists sl. repeat split; try assumption; apply Hokl. }
+  { right. exists sw. repeat split; try assumption; apply Hokw. }
+  destruct (run_to_fuel _ _ _ _ _ Hrun) as (f & Hf). exists f, v, h'.
+  split; [exact Hf|]. split; [exact Hg|]. split.
+  { rewrite Hv. destruct (0 <? g_atleast (gt_eq ls ws n)); destruct (0 <? g_atleast (lt_eq ls ws n));
+      cbn [app list_val]; [right|right|right|left]; try reflexivity; eexists; reflexivity. }
+  split; [exact Hh'|]. split.
+  { intros a Ha H1 H2. apply Hfr; [exact Ha|apply (H1 sl eq_refl)|apply (H2 sw eq_refl)]. }
+  split.
+  - intros s Hs. inversion Hs. subst s. exact Hcl.
+  - intros s Hs. inversion Hs. subst s. exact Hcw.
+Qed.
+
+(* ---- Eq on no literals and no weights *)
+
+Lemma set_arr_id : forall a (h : heap), set_arr a (arr_of h a) h = h.
+Proof.
+  unfold arr_of. induction a as [|a IH]; intros h; destruct h as [|x h]; try reflexivity.
+  cbn [set_arr nth]. rewrite IH. reflexivity.
+Qed.
+
+Lemma heap_write_nil : forall h a o, heap_write h a o [] = h.
+Proof. intros h a o. unfold heap_write. rewrite write_at_nil. apply set_arr_id. Qed.
+
+(* an int-slice value without elements: nil, or a header of length 0 *)
+Definition empty_val (v : val) : Prop := v = VNil \/ exists s, v = VSl s /\ s_len s = O.
+
+Lemma GtEq_empty_run : forall h vl sw n, s_len sw = O ->
+  run_to go_funs "GtEq" [vl; VSl sw; VInt n] h (OReturn (VStruct [vl; VSl sw; VInt n]) h).
+Proof.
+  intros h vl [a o len c] n H. cbn [s_len] in H. subst len.
+  enter. apply (runs_exec go_funs 5); [reflexivity|discriminate].
+Qed.
+
+Lemma LtEq_empty_run : forall h vl vw n, empty_val vl -> empty_val vw ->
+  run_to go_funs "LtEq" [vl; vw; VInt n] h (OReturn (VStruct [vl; vw; VInt (0 - n)]) h).
+Proof.
+  intros h vl vw n Hl Hw.
+  destruct Hl as [->|([a o len c] & -> & H)]; destruct Hw as [->|([a' o' len' c'] & -> & H')];
+    cbn [s_len] in *; subst; enter; (apply (runs_exec go_funs 10); [reflexivity|discriminate]).
+Qed.
+
+(* Eq(lits, weights, n) with len(lits) = len(weights) = 0: the copies are two
+   fresh NON-NIL empty slices, so a kept [ge] has Weights non-nil and empty
+   (the model [eq_ [] [] n] says nil); [le] carries the arguments themselves *)
+Theorem Eq_empty_observation : forall h vl vw n, empty_val vl -> empty_val vw ->
+  exists fuel, run go_funs fuel "Eq" [vl; vw; VInt n] h =
+    OReturn (list_val ((if 0 <? n then [VStruct [eq_l2 h O; eq_w2 h O; VInt n]] else []) ++
+                       (if 0 <? 0 - n then [VStruct [vl; vw; VInt (0 - n)]] else [])))
+            ((h ++ [[]]) ++ [[]]).
+Proof.
+  intros h vl vw n Hl Hw. apply run_to_fuel.
+  eapply run_to_intro; [reflexivity|reflexivity|]. rewrite src_Eq_shape. cbn [f_body].
+  assert (El : eval (St [("lits", vl); ("weights", vw); ("n", VInt n)] h) (ELen (EVar "lits")) = EV (VInt 0)).
+  { destruct Hl as [->|(s & -> & H)]; gocbn; [reflexivity|rewrite H; reflexivity]. }
+  eapply runs_seq; [apply runs_make with (k := 0); [exact El|lia]|].
+  cbn [locals hp upd String.eqb Ascii.eqb Bool.eqb andb Z.to_nat repeat].
+  eapply runs_seq.
+  { apply runs_make with (k := 0); [|lia].
+    destruct Hw as [->|(s & -> & H)]; gocbn; [reflexivity|rewrite H; reflexivity]. }
+  cbn [locals hp upd String.eqb Ascii.eqb Bool.eqb andb Z.to_nat repeat]. rewrite length_alloc.
+  eapply runs_seq.
+  { apply (runs_exec go_funs 1); [|discriminate].
+    destruct Hl as [->|(s & -> & H)]; gocbn; cbn [firstn]; rewrite heap_write_nil; reflexivity. }
+  eapply runs_seq.
+  { apply (runs_exec go_funs 1); [|discriminate].
+    destruct Hw as [->|(s & -> & H)]; gocbn; cbn [firstn]; rewrite heap_write_nil; reflexivity. }
+  eapply runs_seq.
+  { eapply runs_call_run; [reflexivity|]. cbn [hp]. apply GtEq_empty_run. reflexivity. }
+  eapply runs_seq.
+  { eapply runs_call_run; [reflexivity|]. cbn [hp]. apply LtEq_empty_run; assumption. }
+  cbn [locals hp upd String.eqb Ascii.eqb Bool.eqb andb].
+  apply Eq_tail_run.
+Qed.
+
+(* ------------------------------------------------------------------ the remaining statements *)
+
+Lemma sl_read_fresh : forall (h : heap) X c, sl_read (h ++ [X]) (Slice (length h) O (length X) c) = X.
+Proof.
+  intros h X c. unfold sl_read. cbn [s_arr s_off s_len]. rewrite arr_of_alloc_new. cbn [skipn].
+  apply firstn_all.
+Qed.
+
+Lemma int_slice_alloc : forall h X v ls, int_slice h v ls -> int_slice (h ++ [X]) v ls.
+Proof.
+  intros h X v ls [(-> & ->)|(s & -> & Hok & Hrd)]; [left; split; reflexivity|].
+  right. exists s. split; [reflexivity|]. split; [apply slice_ok_alloc; exact Hok|].
+  rewrite sl_read_alloc_old by apply Hok. exact Hrd.
+Qed.
+
+Theorem AtMost_refines : forall h vl ls n, int_slice h vl ls ->
+  exists fuel v h', run go_funs fuel "AtMost" [vl; VInt n] h = OReturn v h' /\
+    gopb_of_rval (readback h' v) = Some (at_most ls n) /\
+    h' = h ++ [map Z.opp ls] /\ firstn (length h) h' = h /\ length h' = S (length h).
+Proof.
+  intros h vl ls n Hl. destruct (run_to_fuel _ _ _ _ _ (AtMost_run h vl ls n Hl)) as (f & Hf).
+  eexists f, _, _. split; [exact Hf|]. split; [|split; [reflexivity|split; [apply firstn_alloc|apply length_alloc]]].
+  cbn [readback map gopb_of_rval rl]. rewrite <- (map_length Z.opp ls) at 1 2. rewrite sl_read_fresh.
+  reflexivity.
+Qed.
+
+Theorem AtMost1_refines : forall h vl ls, int_slice h vl ls ->
+  exists fuel v h', run go_funs fuel "AtMost1" [vl] h = OReturn v h' /\
+    gocard_of_rval (readback h' v) = Some (at_most1 ls) /\
+    h' = h ++ [map Z.opp ls] /\ firstn (length h) h' = h /\ length h' = S (length h).
+Proof.
+  intros h vl ls Hl. destruct (run_to_fuel _ _ _ _ _ (AtMost1_run h vl ls Hl)) as (f & Hf).
+  eexists f, _, _. split; [exact Hf|]. split; [|split; [reflexivity|split; [apply firstn_alloc|apply length_alloc]]].
+  cbn [readback map gocard_of_rval rl]. rewrite <- (map_length Z.opp ls) at 1 2. rewrite sl_read_fresh.
+  reflexivity.
+Qed.
+
+Fixpoint gocards_of_rvals (l : list rval) : option (list gocard) :=
+  match l with
+  | [] => Some []
+  | r :: t => match gocard_of_rval r, gocards_of_rvals t with
+              | Some g, Some gs => Some (g :: gs) | _, _ => None end
+  end.
+
+Theorem Exactly1_refines : forall h vl ls, int_slice h vl ls ->
+  exists fuel c1 c2 h', run go_funs fuel "Exactly1" [vl] h = OReturn (VList [c1; c2]) h' /\
+    readback h' (VList [c1; c2]) = RList [readback h' c1; readback h' c2] /\
+    gocards_of_rvals [readback h' c1; readback h' c2] = Some (exactly1 ls) /\
+    h' = h ++ [map Z.opp ls] /\ firstn (length h) h' = h.
+Proof.
+  intros h vl ls Hl. destruct (run_to_fuel _ _ _ _ _ (Exactly1_run h vl ls Hl)) as (f & Hf).
+  eexists f, _, _, _. split; [exact Hf|]. split; [reflexivity|].
+  split; [|split; [reflexivity|apply firstn_alloc]].
+  cbn [readback map gocards_of_rvals gocard_of_rval rl].
+  rewrite (int_slice_rl _ _ _ (int_slice_alloc h (map Z.opp ls) vl ls Hl)).
+  rewrite <- (map_length Z.opp ls) at 1 2. rewrite sl_read_fresh. reflexivity.
+Qed.
+
+Theorem WeightSum_refines : forall h vl vw ls ws d, int_slice h vl ls -> int_slice h vw ws ->
+  exists fuel, run go_funs fuel "PBConstr.WeightSum" [VStruct [vl; vw; VInt d]] h
+    = OReturn (VInt (weight_sum (GoPB ls (ws_opt vw ws) d))) h.
+Proof. intros h vl vw ls ws d Hl Hw. apply run_to_fuel. apply WeightSum_run; assumption. Qed.
